@@ -27,9 +27,15 @@ PLAIN_OK = {'first', 'last', 'take', 'duc', 'batch'}
 # JSON lists are specs of objects built afresh at run time (equal but not identical: vf.keys)
 # -1 / -2 and 0 / 2**61-1 are unequal values with EQUAL hashes in CPython
 VALUES = [0, 1, 2, 3, 4, None, 'a', 'b', ['big', 0], ['str', 'ab'], ['tuple', 0, 1], -1, -2, 2 ** 61 - 1]
+# numeric-only pool with numpy scalars (their comparisons return numpy.bool_, not the bool singletons); kept apart from the
+# mixed pool because numpy scalars broadcast against tuples
+NUMERIC = [0, 1, 2, -1, -2, 1.0, 2.5, ['np', 1.5], ['np', 2.5], ['np', 1.0], ['np', 2.5]]
 
 
 def dec(v):
+    if isinstance(v, list) and v and v[0] == 'np':
+        import numpy
+        return numpy.float64(v[1])       # comparisons return numpy.bool_, not the bool singletons
     return keys.mk(v) if isinstance(v, list) else v
 
 
@@ -39,7 +45,7 @@ def all_ops():
     ops += [['lag', n] for n in range(1, 5)]
     ops += [['pad_start', n, v] for n in range(0, 4) for v in (None, 9)]
     ops += [['pad_end', n, v] for n in range(0, 4) for v in (None, 9)]
-    ops += [['start_with', list(v)] for v in ((), (7,), (7, 8))]
+    ops += [['start_with', list(v), kind] for v in ((), (7,), (7, 8)) for kind in ('list', 'tuple', 'deque')]
     ops += [['batch', n] for n in range(1, 7)]
     return ops
 
@@ -66,7 +72,10 @@ def build(op):
     if k == 'pad_end':
         return rs.data.pad_end(op[1], op[2])
     if k == 'start_with':
-        return rs.ops.start_with(list(op[1]))
+        # the padding is 'some items': a list, a tuple (the documented example) or any other iterable
+        kind = op[2] if len(op) > 2 else 'list'
+        pad = {'list': list, 'tuple': tuple, 'deque': __import__('collections').deque}[kind](op[1])
+        return rs.ops.start_with(pad)
     if k == 'batch':
         return rs.data.batch(op[1])
     raise ValueError(op)
@@ -148,7 +157,8 @@ def big_batch_enum():
 @st.composite
 def seq_case(draw):
     op = draw(st.sampled_from(OPS))
-    xs = draw(st.lists(st.sampled_from(VALUES), min_size=draw(st.sampled_from([0, 0, 2, 5])), max_size=12))
+    pool = NUMERIC if draw(st.integers(0, 4)) == 0 else VALUES
+    xs = draw(st.lists(st.sampled_from(pool), min_size=draw(st.sampled_from([0, 0, 2, 5])), max_size=12))
     return {'op': op, 'xs': xs}
 
 
@@ -184,7 +194,7 @@ def keyed_case(draw):
     if draw(st.booleans()):
         nk = draw(st.integers(1, 4))
         ks = draw(st.lists(st.integers(0, nk - 1), min_size=draw(st.sampled_from([1, 4, 8])), max_size=18))
-        vals = draw(st.lists(st.sampled_from(VALUES), min_size=len(ks), max_size=len(ks)))
+        vals = draw(st.lists(st.sampled_from(NUMERIC if draw(st.integers(0, 4)) == 0 else VALUES), min_size=len(ks), max_size=len(ks)))
         return {'op': op, 'driver': 'grouped', 'items': [[k, v] for k, v in zip(ks, vals)]}
     nl = draw(st.integers(1, 6))
     lifetimes = [[draw(st.sampled_from(c02.SLOTS)), draw(st.lists(st.sampled_from(VALUES), max_size=7))] for _ in range(nl)]
